@@ -105,7 +105,10 @@ class World:
         self._base_time = base_time
         self._pre_max_id = 0
         virtualize_backoff()
-        self.events = events
+        # events="echo": event sourcing on AND a SYNC subscriber that records a follow-up event of its own when it
+        # is told of a completion (what a progress / audit hook does)
+        self.echo = events == "echo"
+        self.events = bool(events)
         self.sdata = sdata
         self.dedup_items = dedup_items
         self.trust_negative = trust_negative
@@ -243,6 +246,10 @@ class World:
         self.bus_log.append(
             {"thread": threading.current_thread().name, "sequence": event.sequence, "type": event.event_type.value, "event_id": event.event_id, "visible": row is not None, "in_txn": bool(self.store._get_connection().in_transaction)}
         )
+        if self.echo and self.recorder is not None and event.event_type.value in ("stage.completed", "task.completed", "stage.failed"):
+            from stabilize.events.base import EntityType, Event, EventType
+
+            self.recorder._record(Event(event_type=EventType.CUSTOM, entity_type=EntityType.STAGE, entity_id=event.entity_id, workflow_id=event.workflow_id, data={"message": "seen", "about": event.event_type.value}))
 
     # ----------------------------------------------------------------- ledger
     def iteration_of(self, stage_id: str) -> int:
